@@ -547,9 +547,54 @@ def check_prop(case, t):
     t.outcome(("prop", direction))
 
 
+
+# ---------------------------------------------------------------------------
+# Sun / Moon asked alternately: history independence of the analytical bodies
+
+SER_ALPHA = [(b, o) for b in ("Sun", "Moon") for o in (0, 1, -1, 5, -5)]
+SER_BASES = [(53005, 43200.0), (55562, 0.0), (57082, 3600.5), (58700, 80000.0)]
+
+
+def check_series_hist(case, t):
+    """A sequence of requests {Sun, Moon} x {d, d +- 1 day, d +- 5 days} (the two bodies' own difference steps) in one
+    process: every returned velocity is the time derivative of that body's positions, every position is the one a
+    later, separate request gives."""
+    from beyond.dates import Date, timedelta
+    from beyond.env.solarsystem import get_body
+
+    base = Date(case["mjd"], case["sec"])
+    got = []
+    try:
+        for body, off in case["script"]:
+            o = get_body(body).propagate(base + timedelta(days=off))
+            t.trans()
+            got.append(np.array(o, dtype=float).copy())
+    except Exception as e:
+        t.fail("series/history/raises", "Sun / Moon states", case, "a state", repr(e))
+        return
+    # reference afterwards (these calls may themselves depend on history in a defective tree, but only positions
+    # are used, 1 h apart, i.e. never a difference step away from each other)
+    h = 3600.0
+    for i, ((body, off), lib) in enumerate(zip(case["script"], got)):
+        d = base + timedelta(days=off)
+        pts = {k: np.array(get_body(body).propagate(d + timedelta(seconds=k * h)), dtype=float)[:3] for k in (-2, -1, 0, 1, 2)}
+        t.trans(5)
+        deriv = (-pts[2] + 8 * pts[1] - 8 * pts[-1] + pts[-2]) / (12 * h)
+        ev = np.linalg.norm(lib[3:] - deriv) / np.linalg.norm(deriv)
+        tol = TOL[body]["vel"]
+        if not t.margin(f"{body}: velocity vs d(position)/dt in request sequences [rel/{tol:g}]", ev, tol, case):
+            t.fail(f"{body.lower()}/velocity/history", "velocities equal the time derivative of the positions (whatever was asked before)",
+                   case, deriv, lib[3:], f"request #{i} {body} at d{off:+d} d after {case['script'][:i]}: relative {ev:.3e}, |v|={np.linalg.norm(lib[3:]):.1f} m/s")
+            return
+        if not np.array_equal(lib[:3], pts[0]):
+            t.fail(f"{body.lower()}/position/history", "positions do not depend on what was asked before", case, pts[0], lib[:3], f"request #{i}")
+            return
+    t.outcome(("series_hist", len(case["script"]), case["script"][0][0]))
+
+
 # ---------------------------------------------------------------------------
 
-CHECKS = dict(series=check_series, pair=check_pair, sc=check_spacecraft, config=check_config, hist=check_hist,
+CHECKS = dict(series=check_series, series_hist=check_series_hist, pair=check_pair, sc=check_spacecraft, config=check_config, hist=check_hist,
               scales=check_scales, prop=check_prop)
 
 
@@ -579,6 +624,9 @@ def units(tier, seed):
     nser = 6 if tier == "quick" else 16
     for c in range(nser):
         u.append(({"jpl": "none"}, dict(part="series", tier=tier, chunk=c, of=nser)))
+    nsh = 4 if tier == "quick" else 12
+    for c in range(nsh):
+        u.append(({"jpl": "none"}, dict(part="series_hist", tier=tier, chunk=c, of=nsh)))
     nd = len(jpl_dates(tier))
     per = 4 if tier == "quick" else 6
     for mode in ("pck", "nopck"):
@@ -600,6 +648,21 @@ def run_unit(p, t):
             for body in ("Sun", "Moon"):
                 check_case(dict(kind="series", body=body, mjd=mjd, sec=sec), t)
         t.sample(dict(kind="series", body="Moon", mjd=ds[0][0], sec=ds[0][1]))
+    elif p["part"] == "series_hist":
+        import itertools
+
+        bases = SER_BASES[:2] if p["tier"] == "quick" else SER_BASES
+        k = 0
+        for mjd, sec in bases:
+            for depth in (2, 3):
+                for seq in itertools.product(SER_ALPHA, repeat=depth):
+                    if len(set(b for b, _ in seq)) < 2:
+                        continue  # one body alone: covered by the series part
+                    k += 1
+                    if k % p["of"] != p["chunk"]:
+                        continue
+                    check_case(dict(kind="series_hist", mjd=mjd, sec=sec, script=[list(x) for x in seq]), t)
+        t.sample(dict(kind="series_hist", mjd=bases[0][0], sec=bases[0][1], script=[["Sun", 0], ["Moon", 1]]))
     elif p["part"] == "scales":
         import itertools
 
